@@ -96,6 +96,63 @@ def _construct_loops(stmts):
     return kinds
 
 
+def method_calls(cls):
+    """{`self.m` / `Cls.m`: folding function} for the methods of cls, for use as the `calls` table of miniev (small pure
+    helpers are folded on their literal arguments; anything else raises CannotEval)."""
+    from ..miniev import run_pure
+
+    calls = {}
+    for name, m in cls.methods.items():
+        static = any(unparse(d) == "staticmethod" for d in m.decorator_list)
+
+        def mk(m=m, static=static):
+            return lambda *a: run_pure(m, list(a) if static else [None] + list(a), calls)
+
+        calls[f"self.{name}"] = mk()
+        calls[f"{cls.name}.{name}"] = mk()
+    return calls
+
+
+def _fold_shuffle(vm, arm):
+    """[] if the SHUFFLE arm stores the reference result for every sample, a list of counter-examples if not, None if the
+    arm cannot be folded."""
+    from ..miniev import CannotEval, run_block
+
+    calls = method_calls(vm.ec)
+    bad = []
+    samples = [([10, 11, 12], [20, 21], [0, 3, 4, 2], False), ([10, 11, 12], [20, 21], [4], True), ([10, 11], 7, [2, 0, 1], False), (5, [20, 21, 22], [0, 3], False),
+               (5, 6, [1, 0], False), (5, 6, [1], True), ([1, 2, 3, 4], [5, 6, 7, 8], [7, 6, 5, 4], False), ([1, 2, 3, 4], [5, 6, 7, 8], [0], True),
+               ([10, 11, 12], [20, 21, 22], [3, 4, 5], False), ([10, 11, 12], 9, [3], True), ([10, 11], [20], [1, 1, 2, 0], False), (3, [4, 5], [2, 2], False)]
+    # (both operands can be one and the same value: `v.xy = v.yx`, a swizzle of a value with itself)
+    samples += [([1, 2, 3], "same", [0, 3, 5, 1], False), ([7, 8], "same", [3], True), (4, "same", [1, 0], False)]
+    for first, second, idx, scalar in samples:
+        same = isinstance(second, str)
+        second = first if same else second
+        scope = {"F": first if not isinstance(first, list) else list(first)}
+        scope["S"] = scope["F"] if same else (second if not isinstance(second, list) else list(second))
+        env = {"instruction.First.Reference": "F", "instruction.Second.Reference": "F" if same else "S", "instruction.Indices": list(idx), "instruction.Type.IsScalar()": scalar,
+               "instruction.Reference": "R", "ref": "R", "indices": list(idx)}
+        scope_names = set()
+        for n in ast.walk(ast.Module(body=arm.body, type_ignores=[])):
+            if isinstance(n, ast.Subscript) and isinstance(n.value, ast.Name) and isinstance(n.ctx, ast.Store):
+                scope_names.add(n.value.id)
+        if len(scope_names) != 1:
+            return None
+        env[next(iter(scope_names))] = scope
+        try:
+            run_block(arm.body, env, calls)
+        except CannotEval:
+            return None
+        except Exception:
+            return None
+        cat = (first if isinstance(first, list) else [first]) + (second if isinstance(second, list) else [second])
+        want = [cat[i] for i in idx]
+        want = want[0] if scalar else want
+        if scope.get("R", "<nothing>") != want:
+            bad.append(f"first={first}, second={second}, indices={idx}: stores {scope.get('R', '<nothing>')}, expected {want}")
+    return bad
+
+
 def run(model, col, tier):
     vm = VMModel(model)
     lv = model.cls(LOWER, "LowerToIRVisitor")
@@ -233,8 +290,16 @@ def run(model, col, tier):
     col.floor("R04.2", "swizzle write paths", nwrite, 1)
     sh = vm.arm("SHUFFLE")
     s = " ".join(unparse(ast.Module(body=sh.body, type_ignores=[])).split())
-    col.check("combined = first + second" in s and "[combined[i] for i in indices]" in s and "first = localScope[instruction.First.Reference]" in s and "second = localScope[instruction.Second.Reference]" in s, "R04.2",
-              f"{VM}::__Execute SHUFFLE arm", "result[k] = (first ++ second)[indices[k]]", "the SHUFFLE arm does not index the concatenation first ++ second with the instruction's indices", VM, sh.case)
+    text_ok = "combined = first + second" in s and "[combined[i] for i in indices]" in s and "first = localScope[instruction.First.Reference]" in s and "second = localScope[instruction.Second.Reference]" in s
+    # however the arm is spelled (helpers, conditional expressions): folded over sample operands it must store
+    # (first ++ second)[indices[k]] for each k, a scalar operand counting as a one-element vector
+    folded = _fold_shuffle(vm, sh)
+    if folded is None:
+        shuffle_ok, how = text_ok, "read as text (the arm could not be folded over samples)"
+    else:
+        shuffle_ok, how = not folded, "folded over 12 sample operand / index combinations"
+    col.check(shuffle_ok, "R04.2", f"{VM}::__Execute SHUFFLE arm", f"result[k] = (first ++ second)[indices[k]]; {how}",
+              "the SHUFFLE arm does not index the concatenation first ++ second with the instruction's indices" + (f" (e.g. {folded[0]})" if folded else ""), VM, sh.case)
     # ---------------- R04.3 ------------------------------------------------------
     va = lv.own_method("v_ArrayExpression")
     for kind, cls_ in (("isVector", "VectorAccessInstruction"), ("isMatrix", "MatrixAccessInstruction")):
@@ -530,6 +595,10 @@ def run(model, col, tier):
     # ---------------- R04.8 ------------------------------------------------------
     s = " ".join(unparse(ast.Module(body=sh.body, type_ignores=[])).split())
     reads_type = "instruction.Type" in s
-    col.check(reads_type and "result = result[0]" in s and "instruction.Type.IsScalar()" in s, "R04.8", f"{VM}::__Execute SHUFFLE representation",
+    repr_ok = reads_type and "result = result[0]" in s and "instruction.Type.IsScalar()" in s
+    if folded is not None:
+        # the fold of R04.2 covers scalar-typed shuffles (5 of its 12 samples): the stored value is the component itself
+        repr_ok = reads_type and not folded
+    col.check(repr_ok, "R04.8", f"{VM}::__Execute SHUFFLE representation",
               "a shuffle whose type is scalar (one-letter swizzle) yields the component, not a one-element list",
               "the SHUFFLE arm always builds a list, but a one-letter swizzle read has scalar type: `v.x` evaluates to `[1.0]`", VM, sh.case)
